@@ -20,7 +20,7 @@ from gx.props import _hist
 PROP = "C06"
 PROFILE = {"add_formula_column": 10, "modify_formula": 6, "summary": 4, "add_ref_column": 4, "update_record": 16,
            "bulk_update": 8, "remove_record": 6, "rename_column": 3, "modify_type": 3, "to_formula": 2,
-           "undo_earlier": 2, "malformed": 2, "cyclic_formula": 4, "agg_unsorted": 4}
+           "undo_earlier": 2, "malformed": 2, "cyclic_formula": 4, "agg_unsorted": 4, "lookup_chain": 6}
 CFG = {"oracles": (), "n_bundles": 12, "profile": PROFILE, "hook": "gx.props.c06.install", "tie": False, "k": 3}
 
 
@@ -72,8 +72,14 @@ def install(h, cfg):
   from gx import recalc_harness as rh
   from gx.gen_hist import Gen
   rh.install()
-  if h.rng.random() < 0.5:
+  r_ = h.rng.random()
+  if r_ < 0.4:
     h.setup = setup_unsorted
+  elif r_ < 0.75:
+    # chains of lookups in which a formula column is itself a lookup key (several lookup indexes whose
+    # relative order the engine's rule leaves open), followed by single-cell edits of the key cells
+    from gx.props.c05 import setup_chain
+    h.setup = setup_chain
   if not hasattr(Gen, "g_cyclic_formula"):
     Gen.g_cyclic_formula = g_cyclic_formula
   k = cfg.get("k", 3)
@@ -156,7 +162,7 @@ def run(ck):
                     "(_make_sorted_work_items); lookup indexes stay first, as the property allows",
                     "deterministic formulas only"]
   ck.lean(["GristProps.C06"])
-  merged = _hist.run_histories(ck, CFG, n_quick=12, n_thorough=800)
+  merged = _hist.run_histories(ck, CFG, n_quick=20, n_thorough=800)
   ck.extra["permuted_runs"] = merged["stats"].get("permuted_runs", 0)
   ck.extra["bundles_whose_stored_order_differed"] = merged["stats"].get("order_differs", 0)
   _hist.report(ck, merged, PROP, ())
